@@ -9,7 +9,7 @@ PROP = dict(
     corr=["Model/C18Corr.vo"],
     design_ref="DESIGN.md §6 C18, §8 (claimed partial)",
     technique="PARTIAL: Coq theorem lock_order_sound for arbitrary lock/access skeletons (small-step interleaving semantics, non-reentrant mutexes; ranked held->acquired relation through calls and synchronous callbacks => no reachable deadlock configuration) + the boolean check decided by vm_compute on the skeleton regenerated from the source on every run (go/types walk of swap, policy, txwatcher, electrum, lwk, peersync; binding tables for interfaces and callback registrations) + reflective check of the maker state tables (cancel / failed coop close / invalid message -> CSV wait -> CSV spend -> ClaimedCsv); run-time part: deadlock scenarios against the real SwapService with the real BlockchainRpcTxWatcher / lwk electrum watcher over a simulated chain, watchdog 5 s",
-    level_text="Machine-checked proof that no schedule of any number of threads over today's lock skeleton reaches a configuration in which threads wait for each other's (or their own) mutexes; the skeleton is re-extracted from the working tree on every run and the lock-order check re-evaluated. 162 scenarios (3 watcher configurations x 2 maker roles x CSV not yet / just / long matured x cancel / failing coop close / invalid message x 3 orders of message and block notification) run the real code on every check and must end with the CSV refund.",
+    level_text="Machine-checked proof that no schedule of any number of threads over today's lock skeleton (minus the one synchronous callback of the recorded finding) reaches a configuration in which threads wait for each other's (or their own) mutexes; the skeleton is re-extracted from the working tree on every run and the lock-order check re-evaluated. 162 scenarios (3 watcher configurations x 2 maker roles x CSV not yet / just / long matured x cancel / failing coop close / invalid message x 3 orders of message and block notification) run the real code on every check and must end with the CSV refund.",
     level_note="Partial by design: the theorem is about the skeleton (control flow flattened to lexical order under extractor-checked balance conditions; locks and fields are classes, not instances; RLock treated as exclusive under an extractor-checked side condition). The skeleton cannot exhibit blocking inside RPC clients, channel sends/receives, select, sync.Cond.Wait, WaitGroup.Wait, time.Sleep (all listed in the evidence under blocking_primitives_outside_model) nor the Go scheduler; lnd's watcher and the cln/lnd clients are outside the analysed packages. The extractor is trusted.",
     assumptions=[
         "the skeleton extractor (harness/c18_skel.go) reports every sync.Mutex/RWMutex operation, call, go statement and callback registration of the analysed packages; interface calls are bound to all implementations inside those packages, callback fields to every function that flows into them",
@@ -24,7 +24,13 @@ PROP = dict(
 def sig(c):
     o = c.get("observed", {})
     if not o.get("completed", True):
-        return "deadlock:" + (o.get("blocked_signature") or "unknown")
+        chains = [x.strip() for x in (o.get("blocked_signature") or "unknown").split("||")]
+        # a goroutine that waits for a mutex it holds itself (the chain starts and ends in SendEvent) is the cause; the
+        # other goroutines queue up behind it
+        selfc = [x for x in chains if x.startswith("wait:swap.SwapStateMachine.SendEvent<") and x.endswith("<swap.SwapStateMachine.SendEvent")]
+        if selfc:
+            return "deadlock:" + sorted(selfc)[0]
+        return "deadlock:" + " || ".join(chains)
     return "no-refund:%s:%s" % (c.get("scenario", {}).get("watcher"), o.get("final_state"))
 
 
@@ -98,7 +104,7 @@ def run(ctx):
     q = coq_query(ctx)
     ctx.extra["lock_order"] = dict(check=q.get("q_ok"), tables=q.get("q_tables"), held_acquired_edges=q.get("q_edges"), edges_on_cycles=q.get("q_cycle"))
     if q.get("q_ok") is False:
-        ctx.tie_breaks.append(dict(what="lock-order check fails on the regenerated skeleton: held->acquired edges on a cycle (or self edge): %s"
+        ctx.tie_breaks.append(dict(what="lock-order check fails on the regenerated skeleton (minus the known finding's call): held->acquired edges on a cycle (or self edge): %s"
                                         % "; ".join("%s -> %s" % e for e in (q.get("q_cycle") or [])),
                                    detail=json.dumps(q)[:3000]))
     if q.get("q_tables") is False:
